@@ -631,7 +631,7 @@ pub fn main(ctx: &Ctx) {
     campaign_with_fixed(
         ctx,
         Campaign {
-            total_cases: ctx.pick(2_000, 40_000),
+            total_cases: ctx.pick(1_200, 40_000),
             max_shrink_iters: 300,
             limits: Limits { cpu_s: 120, wall_s: 400, as_bytes: 4 << 30 },
             meta: Meta {
